@@ -10,6 +10,7 @@ Section Sound.
 Variable K : fld.
 Variable V : lenv K.
 Variable j : K.
+Add Field KF9s : (fth K).
 Notation ex := (l_ex K V). Notation sn := (l_sn K V). Notation cs := (l_cs K V). Notation fabs := (l_fabs K V).
 Notation pi_ := (l_pi K V). Notation isr := (l_isr K V). Notation neg := (l_neg K V). Notation Fn := (l_Fn K V). Notation Ic := (l_Ic K V). Notation Fv := (l_Fv K V).
 (* exp, sin, cos, |.|, pi *)
@@ -63,6 +64,28 @@ Theorem term_sound_gen : forall zic m X evs x,
   LPair K ex isr neg Fn (Icz K Ic zic) x (dom_mono K ex j isr neg m) X.
 Proof. exact (term_sound K ex sn cs j isr neg Fn Ic Fv F orc ex_add ex_0 jj sn_euler cs_euler isr_0 isr_1 isr_add isr_opp isr_mul isr_inv
                neg_0 neg_1 neg_opp neg_mul neg_inv neg_add gen_forms_ok orc_ok). Qed.
+(* LaplaceTransformer.integral (its whole body is pinned by the translator, its three returns are translated): the running
+   integral of a named function reaches the SECOND return when written with the integration variable,
+   Integral(v(tau), (tau, lo <= 0, t)), and the FIRST return when written Integral(v(t - tau), (tau, 0, oo)) (this one goes
+   through self.term(v(t)) again).  Both are defined for every coefficient, give the same function of s, take the calls
+   observed in the real transformer, return c V(s)/s, and that is the LPair transform of c * int_0^t v. *)
+Theorem integral_returns_gen : forall zic c v,
+  exists X,
+    term1 K ex j isr neg Fv F orc zic c [LIntegA v] = (Some X, [EvIntegral; EvTerm; EvFunc]) /\
+    term1 K ex j isr neg Fv F orc zic c [LInteg v] = (Some X, [EvIntegral; EvFunc]) /\
+    (forall s, s <> 0 -> X s = c * (Fn v s / s)) /\
+    LPair K ex isr neg Fn (Icz K Ic zic) (SScale c (SInteg (SFn v))) (dom1 K ex j isr neg [LIntegA v]) X /\
+    LPair K ex isr neg Fn (Icz K Ic zic) (SScale c (SInteg (SFn v))) (dom1 K ex j isr neg [LInteg v]) X.
+Proof. intros zic c v. eexists. split; [reflexivity|]. split; [reflexivity|]. split; [|split].
+  - intros s Hs. destruct gen_forms_ok as [_ _ _ _ _ _ _ _ Hf _ Hi _ _]. cbn beta.
+    rewrite (Hi 1 _ s Hs), (Hf v 1 0 s (pos_1 K neg neg_1)). unfold spec_func.
+    replace (s * 0 / 1) with (0 : K) by (field; apply one_nz). rewrite ex_0.
+    replace (s / 1) with s by (field; apply one_nz). field. repeat split; try assumption; apply one_nz.
+  - apply (term1_sound K ex sn cs j isr neg Fn Ic Fv F orc ex_add ex_0 jj sn_euler cs_euler isr_0 isr_1 isr_add isr_opp isr_mul isr_inv
+             neg_0 neg_1 neg_opp neg_mul neg_inv neg_add gen_forms_ok orc_ok zic c [LIntegA v] _ [EvIntegral; EvTerm; EvFunc]); reflexivity.
+  - apply (term1_sound K ex sn cs j isr neg Fn Ic Fv F orc ex_add ex_0 jj sn_euler cs_euler isr_0 isr_1 isr_add isr_opp isr_mul isr_inv
+             neg_0 neg_1 neg_opp neg_mul neg_inv neg_add gen_forms_ok orc_ok zic c [LInteg v] _ [EvIntegral; EvFunc]); reflexivity.
+Qed.
 Theorem doit_sound_gen : forall zic e X evs y,
   doit K ex j isr neg Fv F orc zic e = (Some X, evs) -> den K ex j isr neg Fv (divc K (top_const K e) e) = Some y ->
   LPair K ex isr neg Fn (Icz K Ic zic) (SScale (top_const K e) y) (dom K ex j isr neg (divc K (top_const K e) e)) X.
@@ -87,6 +110,7 @@ End Sound.
 
 Print Assumptions gen_forms_ok.
 Print Assumptions term_sound_gen.
+Print Assumptions integral_returns_gen.
 Print Assumptions doit_sound_gen.
 Print Assumptions L_linear_gen.
 Print Assumptions cache_transparent_gen.
